@@ -3,6 +3,7 @@ import FV.Model.Headers
 import FV.Model.Registry0
 import FV.Model.Receivers
 import FV.Model.Context
+import FV.Model.HeadersTransport
 import FV.Spec.V0Layout
 
 namespace Driver
@@ -14,6 +15,30 @@ def writeHeaderOut (h : Hdrs) : String :=
   match specDecode (marshal h) with
   | some (l, rest) => if rest.isEmpty ∧ (l.map Prod.fst).Nodup then "ok " ++ pairsOf l else "bad"
   | none => "bad"
+
+/-- The transport `<kind>:<k>` of the `c04tr` suite carrying `b`: pieces of `k` bytes (coarsened to at most
+~40 pieces for long inputs: by `c04_read_independent_of_chunking_and_remaining` any chunking will do) and
+the kind's way of reporting `RemainingBytes()`. -/
+def transportOf (spec : String) (b : Bytes) : Option RdTransport :=
+  match spec.splitOn ":" with
+  | [kind, ks] => do
+    let k ← ks.toNat?
+    if k = 0 then none else
+    let kk := max k (b.length / 32 + 1)
+    let chunks := chunksOf kk 40 b
+    let exact : List Bytes → Nat := fun cs => cs.flatten.length
+    let rem : Option (List Bytes → Nat) :=
+      match kind with
+      | "mem" | "remx" | "fill" => some exact
+      | "ffr" | "tfr" => some (fun cs => (cs.headD []).length)          -- the rest of the current frame
+      | "bufs" | "bufl" | "bufm" | "zlib" => some (fun cs => (cs.drop 1).flatten.length)  -- what is left underneath
+      | "bufr" | "pipe" | "remmax" => some (fun _ => 18446744073709551615)
+      | "rem0" => some (fun _ => 0)
+      | "rem1" => some (fun _ => 1)
+      | _ => none
+    let r ← rem
+    pure ⟨chunks, r⟩
+  | _ => none
 
 /-- Independent reader of the documented v0 layout (Spec side): pairs in wire order. -/
 def stepHeaders (op : String) (args : List String) : Option String :=
@@ -82,6 +107,18 @@ def stepHeaders (op : String) (args : List String) : Option String :=
   | "pws", [p] => do
     let h ← parsePairs p
     pure (writeHeaderOut h)
+  -- the same over a transport of a given kind (c04tr)
+  | "tpq", [x, tk] => do
+    let b ← unhex x
+    let t ← transportOf tk b
+    pure (showRes (fun (c, r) => "ok req=" ++ pairsOf (c.req.without opIdHeader) ++ " resp=" ++ pairsOf c.resp
+      ++ " rest=" ++ hexOf r) (readRequestHeaderT t 0))
+  | "tps", [x, p, tk] => do
+    let b ← unhex x
+    let pre ← parsePairs p
+    let t ← transportOf tk b
+    pure (showRes (fun (c, r) => "ok resp=" ++ pairsOf c.resp ++ " rest=" ++ hexOf r)
+      (readResponseHeaderT ⟨[], Hdrs.setAll [] pre⟩ t))
   -- several unrelated streams read at once: each reader's answer is the answer for its own bytes
   | "umc", [xs] => do
     let bs ← (xs.splitOn ",").mapM unhex
